@@ -277,8 +277,24 @@ func (w *World) Reach(roots []*ssa.Function, stop func(*ssa.Function) bool) Reac
 				}
 				return edges[i].Callee.Func.String() < edges[j].Callee.Func.String()
 			})
+			hasEdge := map[ssa.CallInstruction]bool{}
 			for _, e := range edges {
 				push(e.Callee.Func, e.Site)
+				hasEdge[e.Site] = true
+			}
+			// Interface calls for which VTA found no callee at all: the concrete value entered through
+			// reflection (codec.UnmarshalInterface of a stored message). For interfaces declared in this
+			// module fall back to class-hierarchy resolution over production types.
+			for _, b := range f.Blocks {
+				for _, in := range b.Instrs {
+					ci, ok := in.(ssa.CallInstruction)
+					if !ok || !ci.Common().IsInvoke() || hasEdge[ci] {
+						continue
+					}
+					for _, g := range w.chaModuleCallees(ci.Common()) {
+						push(g, ci)
+					}
+				}
 			}
 		}
 		// anonymous functions lexically inside a visited function (closures handed to SDK iterators etc.)
@@ -379,5 +395,32 @@ func (cr *ClassReach) ClassesReaching(f *ssa.Function) []string {
 			out = append(out, c)
 		}
 	}
+	return out
+}
+
+var chaMemo = map[string][]*ssa.Function{}
+
+// chaModuleCallees: production implementations of an invoked method of a module-declared interface.
+func (w *World) chaModuleCallees(c *ssa.CallCommon) []*ssa.Function {
+	n, ok := c.Value.Type().(*types.Named)
+	if !ok || n.Obj().Pkg() == nil || !strings.HasPrefix(n.Obj().Pkg().Path(), modPath) {
+		return nil
+	}
+	iface, ok := n.Underlying().(*types.Interface)
+	if !ok {
+		return nil
+	}
+	key := n.Obj().Pkg().Path() + "." + n.Obj().Name() + "." + c.Method.Name()
+	if r, ok := chaMemo[key]; ok {
+		return r
+	}
+	var out []*ssa.Function
+	for _, t := range w.implementorsOf(iface) {
+		if fn := w.methodFn(t, c.Method.Name()); fn != nil {
+			out = append(out, fn)
+		}
+	}
+	sort.Slice(out, func(i, j int) bool { return out[i].String() < out[j].String() })
+	chaMemo[key] = out
 	return out
 }
